@@ -116,7 +116,7 @@ pub fn compile_on<D: DecisionDiagram<State = i64>>(dd: &mut D, fam: &Fam, req: &
     match res {
         None => format!("panic | | | | {}", tail),
         Some(Err(_)) => format!("cutoff | | | | {}", tail),
-        Some(Ok(c)) => {
+        Some(Ok(c)) => catch(|| {
             let o = |x: Option<isize>| x.map(|v| v.to_string()).unwrap_or("none".into());
             let status = format!("ok {} {} {} {}", c.is_exact as u8, o(c.best_value), o(dd.best_exact_value()), dd.is_exact() as u8);
             let bs = dd.best_solution().map(|s| decs(&s)).unwrap_or("none".into());
@@ -126,7 +126,7 @@ pub fn compile_on<D: DecisionDiagram<State = i64>>(dd: &mut D, fam: &Fam, req: &
             cs.sort();
             let cs_s = cs.iter().map(|(s, d, v, ub, p)| format!("{} {} {} {} : {}", s, d, v, ub, p)).collect::<Vec<_>>().join(" ; ");
             format!("{} | {} | {} | {} | {}", status, bs, bes, cs_s, tail)
-        }
+        }).unwrap_or_else(|| format!("qpanic | | | | {}", tail)),   // a query on the compiled diagram panicked
     }
 }
 
